@@ -105,3 +105,20 @@ Theorem C12_interactive_is_source : forall cfg o events reads acc,
     /\ pacts (interactive_loop cfg o events acc) reads = flat_map (act_pacts cfg o events) acts.
 Proof. exact interactive_source_meets_model. Qed.
 Print Assumptions C12_interactive_is_source.
+
+(* THE TIE BY TRANSLATION for Channel.SendInputB: the function as the source has it on this run (its
+   goroutine inline), run for every combination of its option tests and for a failure of either
+   read (deadline or loss), invokes the primitives and returns the class of result that the model's
+   send_input does — write, echo read (fuzzy or exact), return, prompt read (plain or with the
+   interim patterns) unless eager, result; a deadline at a read yields the timeout error, a loss
+   the transport's own error, and nothing is invoked after the failing read — for EVERY
+   configuration, input, options and sequence of read outcomes. *)
+From Scrapli Require Import DecideLang GeneratedSkel InteractiveSrcDefs ChannelSrc.
+Theorem C12_send_input_is_source :
+  sin_table_ok = true
+  /\ forall cfg input o rds,
+       mrun (send_input cfg input o) rds
+       = (flat_map (sact_pacts cfg input o) (fst (sin_expected (o_exact o) (o_eager o) (is_nil (o_interim o)) (fail_src o input rds))),
+          snd (sin_expected (o_exact o) (o_eager o) (is_nil (o_interim o)) (fail_src o input rds))).
+Proof. exact send_input_is_source. Qed.
+Print Assumptions C12_send_input_is_source.
